@@ -430,3 +430,78 @@ class settings_write_sites:
 CONTRACTS = [add_to_cache, settings_replace_reinitialises, settings_replace_chained,
              caller_arguments_unmodified,
              default_settings_unchanged_by_custom_calls, locale_loading_frame, settings_write_sites]
+
+
+class locale_lazy_attributes:
+    """the lazily built per-Locale attributes that parsing reads (abbreviations, splitters, the two
+    dictionaries, simplifications, relative translations) are functions of the locale's data and the
+    NORMALIZE flag they are asked for - not of which variant happened to be asked first (C03: an
+    earlier NORMALIZE=False call must not change what a later default call sees, and vice versa).
+    Evaluated over every language.  (`_wordchars` itself does depend on the first asker - accented
+    letters - but it only feeds `_set_splitters`, whose result is compared here.)"""
+
+    name = "locale.Locale/lazy-attributes-independent-of-first-use"
+    func = "dateparser.languages.locale.Locale._get_*"
+    props = ["C03"]
+    concrete_samples = 1
+    PARTS = 4
+
+    @staticmethod
+    def cases():
+        return [dict(part=i) for i in range(locale_lazy_attributes.PARTS)]
+
+    @staticmethod
+    def setup(inp, case):
+        from copy import deepcopy
+        from importlib import import_module
+
+        from dateparser.data.languages_info import language_order
+        from dateparser.languages.locale import Locale
+        from pyvc.harness import make_settings
+
+        def fresh(lang):
+            info = getattr(import_module("dateparser.data.date_translation_data." + lang), "info")
+            return Locale(lang, language_info=deepcopy(info))
+
+        def pat(x):
+            return getattr(x, "pattern", x)
+
+        getters = {
+            "abbreviations": lambda l, s: sorted(l._get_abbreviations(s)),
+            "splitters": lambda l, s: l._get_splitters(s),
+            "dictionary": lambda l, s: dict(l._get_dictionary(s)._dictionary),
+            "simplifications": lambda l, s: repr([[(pat(k), pat(v)) for k, v in d.items()]
+                                                 if isinstance(d, dict) else d
+                                                 for d in l._get_simplifications(s)]),
+            "relative-translations": lambda l, s: repr({pat(k): [pat(p) for p in v] for k, v in
+                                                        l._get_relative_translations(s).items()}),
+        }
+
+        def run():
+            bad, n = [], 0
+            for i, lang in enumerate(language_order):
+                if i % locale_lazy_attributes.PARTS != case["part"]:
+                    continue
+                for name, get in getters.items():
+                    for first, second in ((True, False), (False, True)):
+                        n += 1
+                        a = fresh(lang)
+                        get(a, make_settings(NORMALIZE=first))
+                        va = get(a, make_settings(NORMALIZE=second))
+                        vb = get(fresh(lang), make_settings(NORMALIZE=second))
+                        if va != vb:
+                            bad.append((lang, name, "asked with NORMALIZE=%s first" % first))
+            return n, bad[:6], len(bad)
+
+        return run, (), {}, {}
+
+    @staticmethod
+    def post(case, g, out):
+        if not out.ok:
+            return {"no-exception": False}
+        n, bad, nbad = out.value
+        return {"no-exception": True, "languages-covered": n > 400,
+                "value-for-a-NORMALIZE-flag-is-the-same-whichever-flag-was-asked-first": nbad == 0}
+
+
+CONTRACTS += [locale_lazy_attributes]
